@@ -61,6 +61,11 @@ class Holder:
         new_dict["_memory_storage"] = storage.InMemoryStorage(is_eternal=self._eternal)
         new_dict["_memory_storage"]._arrays = dict(self._memory_storage._arrays)
 
+        if self._disk_storage is not None:
+            new_dict["_disk_storage"] = new.create_disk_storage()
+            for period in list(self._disk_storage.get_known_periods()):
+                new._disk_storage.put(self._disk_storage.get(period), period)
+
         return new
 
     def create_disk_storage(self, directory=None, preserve=False):
